@@ -3,10 +3,10 @@ CONSTANTS
   OptWriter = "all"
   OptKnown = TRUE
   InWriter = "positional"
-  OutWriter = "first"
+  OutWriter = "all"
   CloneKeeps = {"min", "max", "qdim", "peraxis"}
   TableKept = "always"
-  CloneQuant = "private"
+  CloneQuant = "shallow"
   MaxIn = 4
 INVARIANT OptionRoundTrip
 INVARIANT OperandPositions
